@@ -1365,5 +1365,5 @@ func runC18Wire(e *Env) {
 	R.Require(explained || verifhook.Hits("send.fileEnd.before") > 0, "hook send.fileEnd.before never hit")
 
 	// a failing file: the harness plays the sender, the real receiver reports the file with a FileDone whose error text is long
-	c18WireDoneStage(e, e.Pick(16, 120), explained)
+	c18WireDoneStage(e, e.Pick(32, 120), explained)
 }
